@@ -9,6 +9,7 @@ Selecting the store through ``storage_options={"store": id}`` exercises the
 import threading
 
 import fsspec
+import fsspec.asyn
 from fsspec.spec import AbstractFileSystem
 
 STORES = {}
@@ -196,8 +197,80 @@ class McFS(AbstractFileSystem):
             return f.read(-1 if end is None else end - (start or 0))
 
 
+class AMcFS(fsspec.asyn.AsyncFileSystem):
+    """the same stores behind an ASYNC fsspec implementation (async_impl is True, like http / s3 / gcs): code that takes
+    another path for such filesystems (cat_ranges, concurrent fetches) is exercised; events are logged like McFS'"""
+
+    protocol = "amcfs"
+    cachable = False
+
+    def __init__(self, store="default", **kw):
+        super().__init__(store=store, **kw)
+        self.store_id = store
+
+    @property
+    def store(self):
+        return STORES.setdefault(self.store_id, {})
+
+    @classmethod
+    def _strip_protocol(cls, path):
+        path = str(path)
+        if path.startswith("amcfs://"):
+            path = path[len("amcfs://") :]
+        return "/" + path.strip("/") if path.strip("/") else "/"
+
+    async def _info(self, path, **kw):
+        p = self._strip_protocol(path)
+        ev("info", p, 0, 0, 0)
+        if p in self.store:
+            return {"name": p, "size": len(self.store[p]), "type": "file", "mtime": MTIMES.get((self.store_id, p), 1_600_000_000.0)}
+        if any(k.startswith(p.rstrip("/") + "/") for k in self.store):
+            return {"name": p, "size": 0, "type": "directory"}
+        raise FileNotFoundError(p)
+
+    async def _ls(self, path, detail=True, **kw):
+        p = self._strip_protocol(path).rstrip("/") + "/"
+        ev("ls", p, 0, 0, 0)
+        names = sorted({p + k[len(p) :].split("/")[0] for k in self.store if k.startswith(p)})
+        return [await self._info(n) for n in names] if detail else names
+
+    async def _cat_file(self, path, start=None, end=None, **kw):
+        p = self._strip_protocol(path)
+        if p not in self.store:
+            ev("open-missing", p, 0, 0, 0)
+            raise FileNotFoundError(p)
+        data = self.store[p]
+        n = len(data)
+        a = 0 if start is None else (start if start >= 0 else max(n + start, 0))
+        b = n if end is None else (end if end >= 0 else max(n + end, 0))
+        with _lock:
+            _handle_counter[0] += 1
+            hid = _handle_counter[0]
+        ev("open", p, hid, 0, n)
+        ev("read", p, hid, a, max(b - a, 0))
+        ev("close", p, hid, 0, 0)
+        return data[a:b]
+
+    async def _pipe_file(self, path, value, **kw):
+        self.store[self._strip_protocol(path)] = bytes(value)
+        touch(self.store_id, self._strip_protocol(path))
+
+    async def _rm_file(self, path, **kw):
+        del self.store[self._strip_protocol(path)]
+
+    def _open(self, path, mode="rb", **kw):
+        p = self._strip_protocol(path)
+        if "r" in mode:
+            if p not in self.store:
+                ev("open-missing", p, 0, 0, 0)
+                raise FileNotFoundError(p)
+            return McFile(self, p, self.store[p])
+        raise NotImplementedError(mode)
+
+
 def register():
     fsspec.register_implementation("mcfs", McFS, clobber=True)
+    fsspec.register_implementation("amcfs", AMcFS, clobber=True)
 
 
 def put_product(store_id, root, files):
